@@ -5,8 +5,10 @@
    fixes/C47-restore-on-any-error.diff: except Exception + restore of a snapshot taken before backup()).
    [invalid_document] = the submitted body has an unknown field at any level, a port or status code that int()
    refuses, a malformed header/trailer list, a non-object where an object is expected, or is not readable JSON. *)
+From Coq Require Import Strings.String.
 From Coq Require Import List Bool NArith ZArith.
-From MV Require Import Base.Bytes Model.WebFlowEdit Proofs.WebFlowEdit.
+Import ListNotations.
+From MV Require Import Base.Bytes Model.WebFlowEdit Proofs.WebFlowEdit Proofs.WebFlowEditApply.
 
 (* Full strength, repaired code: for every body and every flow (with or without an earlier backup) the handler
    either accepts and returns the completely edited flow, or returns the flow exactly as it was. *)
@@ -70,6 +72,35 @@ Theorem C47_accepted_then_revert : forall vx vb body f f',
   f_backup f = None -> put vx vb body f = (f', Done) -> revert f' = f.
 Proof. exact put_done_revert. Qed.
 Print Assumptions C47_accepted_then_revert.
+
+(* Applies completely: after an accepted edit the request port and method, the comment and the marker are
+   exactly what the document says -- [expected] walks the document in order, the last submitted value of a field
+   wins (int() of it for the port, str() encoded as utf-8/surrogateescape for the method), and a field the
+   document does not mention keeps its old value. Holds for every variant. *)
+Theorem C47_accepted_applies : forall vx vb body f f', put vx vb body f = (f', Done) ->
+  exists items, body = Some (JDict items)
+  /\ q_port (c_request (f_cur f')) = expected (in_request upd_port) items (q_port (c_request (f_cur f)))
+  /\ q_method (c_request (f_cur f')) = expected (in_request upd_method) items (q_method (c_request (f_cur f)))
+  /\ c_comment (f_cur f') = expected upd_comment items (c_comment (f_cur f))
+  /\ c_marked (f_cur f') = expected upd_marked items (c_marked (f_cur f)).
+Proof. exact accepted_applies. Qed.
+Print Assumptions C47_accepted_applies.
+
+(* ... and so is the status code of a flow that has a response. *)
+Theorem C47_accepted_applies_code : forall vx vb body f f' p, put vx vb body f = (f', Done) ->
+  c_response (f_cur f) = Some p ->
+  exists items, body = Some (JDict items)
+  /\ code_of (f_cur f') = Some (expected (in_response upd_code) items (p_code p)).
+Proof. exact accepted_applies_code. Qed.
+Print Assumptions C47_accepted_applies_code.
+
+(* the specification functions read the document: port from a padded underscore literal, last comment wins *)
+Theorem C47_expected_example :
+  expected (in_request upd_port)
+    [(k_comment, JNull); (k_request, JDict [(k_port, JStr (lit " 8_0 ")); (k_method, JStr (lit "PATCH"))])] 22%Z = 80%Z
+  /\ expected upd_comment [(k_comment, JInt 1); (k_marked, JNull); (k_comment, JStr (lit "last"))] JNull = JStr (lit "last").
+Proof. exact expected_example. Qed.
+Print Assumptions C47_expected_example.
 
 (* Whether an edit is accepted, and with which exception it is refused, does not depend on the variant. *)
 Theorem C47_outcome_variant_independent : forall vx vb vx' vb' body f,
